@@ -11,7 +11,7 @@ The statement names mechanisms, each with a structural necessary condition that 
  7. the loop-exit comparison of NEXT, GOSUB's return location, cell addressing
  8. R-RESUME: every position a statement can be resumed at has a dispatch arm
 """
-from lib import (sfx, get_fn, callers_of, expr_has_field, strip_expr, strip_refs, show, expr_calls, expr_params, aggregates, path_records,
+from lib import (sfx, get_fn, callers_of, expr_has_field, on_ok_arm, strip_expr, strip_refs, show, expr_calls, expr_params, aggregates, path_records,
                  bool_switch_true_target, exclusive_region, region_aggregates)
 import common
 from props import C06, C16
@@ -271,6 +271,30 @@ def run(ck, F, E):
         ck.require(ok, "C03:SCOPE:bindings-pushed", "dynamic parameter scoping",
                    "evaluated arguments are bound in a fresh Variables that is pushed with the frame",
                    "a FN call no longer pushes its evaluated argument bindings as the new frame", ud.span)
+
+    # ---- error line attribution: an error raised inside a function body is located while the cursor is still
+    #      in the body (the frame is popped only on success, or the error is located before the pop)
+    if ud is not None:
+        pushes = ud.calls_to("Program::push_function_call_onto_stack_and_goto_it")
+        pops = ud.calls_to("Program::pop_function_call_off_stack_and_return_from_it")
+        body_calls = [c for c in ud.calls() if c.callee.endswith("::evaluate_expression") and pushes and
+                      on_ok_arm(ud, pushes[0], c.bb)]
+        ok = bool(pops) and bool(body_calls)
+        for pcall in pops:
+            located = any(ud.dominates(c.bb, pcall.bb) for c in ud.calls()
+                          if c.callee.endswith("populate_error_location") or c.callee.endswith("error_at_current_location"))
+            on_success = any(on_ok_arm(ud, bc, pcall.bb) for bc in body_calls)
+            ok = ok and (on_success or located)
+        ck.require(ok, "C03:ERRLINE:fn-body", "error line attribution",
+                   "the call frame is popped only after the body evaluated successfully (errors are located in the DEF line)",
+                   "the function-call frame is popped before an error from the body has been given its location: the error is then "
+                   "attributed to the caller's line instead of the DEF line", ud.span)
+    pe = get_fn(ck, F, "Program::populate_error_location")
+    if pe is not None:
+        ok = bool(pe.calls_to("Program::get_prev_location")) and bool(pe.calls_to("Program::get_data_location"))
+        ck.require(ok, "C03:ERRLINE:populate", "error line attribution",
+                   "unlocated errors get the previous token's location (DATA type mismatches the DATA item's)",
+                   "populate_error_location no longer uses get_prev_location / get_data_location", pe.span)
 
     # ---- (8)
     C06.resume_rule(ck, F, "C03")
